@@ -47,6 +47,7 @@ LevelBlock == /\ IsEvent("level")
 LevelEnd   == IsEvent("levelend") /\ Judge(LevelEndOK(E, st.count)) /\ st' = StInit
 
 Uncompact  == Stateless("uncompact", UncompactOK(E))
+WorldEv    == Stateless("world", WorldOK(E))
 
 Compact8   == Stateless("compact8", Compact8OK(E))
 Compact10  == Stateless("compact10", Compact10OK(E))
@@ -117,7 +118,7 @@ TraceNext ==
   \/ Reset \/ Codec \/ DecodeEv \/ HexFmtEv \/ HexParseEv
   \/ SortedBlock \/ AncPair \/ RunBlock
   \/ Children \/ ParentComp \/ ChildComp \/ LevelBlock \/ LevelEnd
-  \/ Uncompact \/ Compact8 \/ Compact10 \/ CompactPair
+  \/ Uncompact \/ WorldEv \/ Compact8 \/ Compact10 \/ CompactPair
   \/ Anchors \/ AnchorsPin \/ AnchorsEnd \/ RelConfig \/ RelFact \/ CoverFact \/ RelEnd \/ ChildGeom
   \/ QuintMap \/ QuintMapPin \/ Call
   \/ ProjStep \/ Pair \/ Purity \/ Instances
